@@ -137,6 +137,10 @@ pub struct SchedCfg {
     pub jitter: Vec<Vec<u64>>,
     #[serde(default)]
     pub jitter_seed: Option<u64>,
+    /// jitter as a function of the (virtual) time of the draw: all draws of one registration agree,
+    /// different registrations differ
+    #[serde(default, skip_serializing_if = "Option::is_none")]
+    pub jitter_time_seed: Option<u64>,
 }
 
 #[derive(Serialize, Deserialize, Clone, Debug, PartialEq)]
